@@ -10,10 +10,13 @@ theorem pin_container_tree_btree_Contains_ok : Juniper.Gen.PinTreeAccess.pin_con
 theorem pin_container_tree_btree_Get_ok : Juniper.Gen.PinTreeAccess.pin_container_tree_btree_Get = Juniper.Pinned.TreeAccess.pin_container_tree_btree_Get := by rfl
 theorem pin_container_tree_btree_Put_ok : Juniper.Gen.PinTreeAccess.pin_container_tree_btree_Put = Juniper.Pinned.TreeAccess.pin_container_tree_btree_Put := by rfl
 theorem pin_container_tree_btree_insertIntoLeaf_ok : Juniper.Gen.PinTreeAccess.pin_container_tree_btree_insertIntoLeaf = Juniper.Pinned.TreeAccess.pin_container_tree_btree_insertIntoLeaf := by rfl
+theorem pin_container_tree_btree_overfill_ok : Juniper.Gen.PinTreeAccess.pin_container_tree_btree_overfill = Juniper.Pinned.TreeAccess.pin_container_tree_btree_overfill := by rfl
 theorem pin_container_tree_btree_searchNode_ok : Juniper.Gen.PinTreeAccess.pin_container_tree_btree_searchNode = Juniper.Pinned.TreeAccess.pin_container_tree_btree_searchNode := by rfl
 theorem pin_container_tree_cursor_lost_ok : Juniper.Gen.PinTreeAccess.pin_container_tree_cursor_lost = Juniper.Pinned.TreeAccess.pin_container_tree_cursor_lost := by rfl
 theorem pin_container_tree_cursor_valueUnchecked_ok : Juniper.Gen.PinTreeAccess.pin_container_tree_cursor_valueUnchecked = Juniper.Pinned.TreeAccess.pin_container_tree_cursor_valueUnchecked := by rfl
 theorem pin_container_tree_forwardIterator_Next_ok : Juniper.Gen.PinTreeAccess.pin_container_tree_forwardIterator_Next = Juniper.Pinned.TreeAccess.pin_container_tree_forwardIterator_Next := by rfl
+theorem pin_container_tree_insertOne_ok : Juniper.Gen.PinTreeAccess.pin_container_tree_insertOne = Juniper.Pinned.TreeAccess.pin_container_tree_insertOne := by rfl
+theorem pin_container_tree_newAmalgam1_ok : Juniper.Gen.PinTreeAccess.pin_container_tree_newAmalgam1 = Juniper.Pinned.TreeAccess.pin_container_tree_newAmalgam1 := by rfl
 theorem pin_container_tree_type_Bound_ok : Juniper.Gen.PinTreeAccess.pin_container_tree_type_Bound = Juniper.Pinned.TreeAccess.pin_container_tree_type_Bound := by rfl
 theorem pin_container_tree_type_KVPair_ok : Juniper.Gen.PinTreeAccess.pin_container_tree_type_KVPair = Juniper.Pinned.TreeAccess.pin_container_tree_type_KVPair := by rfl
 theorem pin_container_tree_type_Map_ok : Juniper.Gen.PinTreeAccess.pin_container_tree_type_Map = Juniper.Pinned.TreeAccess.pin_container_tree_type_Map := by rfl
